@@ -7,6 +7,8 @@ use proptest::strategy::{BoxedStrategy, Strategy};
 
 pub struct C04;
 
+const THRESHOLD_EXH: u8 = 100;
+
 impl Property for C04 {
     type Case = History;
     fn id(&self) -> &'static str {
@@ -35,6 +37,19 @@ impl Property for C04 {
     }
     fn required_classes(&self, _tier: Tier) -> Vec<&'static str> {
         vec!["cut_below_tip_on_fork", "c_too_large", "fork_free_height_formula", "cut_stops_at_competing_block"]
+    }
+    fn extra_cases(&self, tier: Tier) -> Vec<History> {
+        // exhaustive: every fork tree (shape x arrival order) x difficulties in {1,2,3}
+        let mut v = vec![];
+        let nmax = match tier {
+            Tier::Quick => 4,
+            Tier::Thorough => 6,
+        };
+        for n in 1..=nmax {
+            let net = [crate::chain::Net::Mainnet, crate::chain::Net::Testnet, crate::chain::Net::Regtest][n % 3];
+            v.extend(crate::hist::exhaustive_trees(n, net, THRESHOLD_EXH));
+        }
+        v
     }
     fn run(&self, case: &History) -> Outcome {
         let mut out = Outcome::default();
